@@ -291,6 +291,43 @@ def swapped_args(chk, fx, rule, files):
     return n
 
 
+def ctor_fields(chk, fx, rule, files):
+    """a struct literal field that carries the name of one of the function's parameters is initialised with that parameter itself"""
+    chk.rule(rule, "CTOR-FIELD: in a struct literal `S { p: <expr>, .. }` (or shorthand `S { p, .. }`) written in a function with a parameter `p`, the field takes `p` as it is "
+                   "(only & / into / clone / Some adapters): a limit, an id or an option stored under its own name is the caller's value")
+    files = set(files)
+    wanted = {"dicom_" + f.split("/")[0].replace("-", "_") for f in files}
+    audit = load_audit()
+    n = 0
+    for key in sorted(fx.files):
+        if key[0] not in wanted:
+            continue
+        d = fx.crate(*key)
+        for h in d["hir"]:
+            if h["loc"]["f"] not in files or h["loc"].get("m") or not H.is_node(h.get("body")) or re.search(r"::tests?::", h["path"]):
+                continue
+            ps = {p for p in param_names(h) if p and p != "self"}
+            if not ps:
+                continue
+            for y in H.walk(h["body"]):
+                if H.kind(y) != "struct" or not isinstance(y[4], list) or H.mac(y) or y[2].endswith("Snafu"):
+                    continue  # snafu context selectors describe the failure (`ts: ts.name()`), they do not store state
+                for f in y[4]:
+                    if not (isinstance(f, list) and len(f) == 2 and isinstance(f[0], str)) or f[0] not in ps:
+                        continue
+                    # the parameter may have been re-bound on purpose (`let p = p.into();`): follow plain local re-bindings of the same name
+                    c = faithful_core(f[1])
+                    n += 1
+                    if (h["path"], "field:" + f[0]) in audit:
+                        chk.ok(rule, h["path"], f"{y[2].split('::')[-1]}.{f[0]}", "audited: " + audit[(h["path"], "field:" + f[0])])
+                        continue
+                    ok = H.kind(c) == "path" and c[2] == f[0]
+                    chk.expect(ok, rule, h["path"], f"{y[2].split('::')[-1]}.{f[0]}", f"the parameter `{f[0]}` itself", H.show(f[1], 5), loc=f"{h['loc']['f']}:{y[1]}")
+    return n
+
+
+CTOR_COUNTED = {"C01": 35, "C02": 30, "C03": 19, "C04": 7, "C05": 80, "C06": 31, "C07": 18, "C08": 5, "C09": 17, "C10": 23, "C11": 26, "C13": 19, "C14": 22, "C15": 1, "C16": 8,
+                "C25": 4, "C26": 6, "C28": 3, "C29": 5, "C30": 5, "C31": 13, "C33": 1, "C34": 26}
 ARGS_COUNTED = {"C01": 98, "C02": 92, "C03": 12, "C04": 15, "C05": 176, "C06": 83, "C07": 15, "C08": 12, "C09": 71, "C10": 79, "C11": 3, "C13": 70, "C16": 2, "C23": 1,
                 "C25": 7, "C26": 5, "C27": 5, "C28": 4, "C29": 7, "C30": 11, "C31": 70, "C32": 5, "C33": 12, "C34": 88}
 REBUILDS_COUNTED = {"C05": 28, "C06": 26, "C09": 14, "C16": 5}
@@ -318,6 +355,9 @@ def check_property(chk, pid):
     n = 0
     if COUNTED.get(pid):
         n = check(chk, fx, "forwarders", files, floor=(COUNTED[pid] * 9) // 10)
+    if CTOR_COUNTED.get(pid):
+        m = ctor_fields(chk, fx, "constructor-fields", files)
+        chk.floor("constructor-fields", "fields named after a parameter", m, (CTOR_COUNTED[pid] * 9) // 10)
     if ARGS_COUNTED.get(pid):
         m = swapped_args(chk, fx, "argument-names", files)
         chk.floor("argument-names", "call sites with two arguments named after parameters", m, (ARGS_COUNTED[pid] * 9) // 10)
